@@ -42,6 +42,18 @@ func (r *Recorder) Register(env *stick.Env) {
 			return model.FuncResult(name, a, libStr, libNum, libTruth)
 		}
 	}
+	env.Functions["probe"] = func(ctx stick.Context, args ...stick.Value) stick.Value {
+		out := ""
+		for _, a := range args {
+			name := stick.CoerceString(a)
+			if v, ok := ctx.Scope().Get(name); ok {
+				out += name + "=" + stick.CoerceString(v) + ";"
+			} else {
+				out += name + "=U;"
+			}
+		}
+		return out
+	}
 	for _, name := range model.FilterNames {
 		name := name
 		env.Filters[name] = func(ctx stick.Context, val stick.Value, args ...stick.Value) stick.Value {
